@@ -19,7 +19,9 @@ import tracecheck
 from common import spec, cfgpath
 
 SPECIAL = [u'b c', u'b?c', u'b#c', u'b%c', u'b%41c', u'é', u'b;c', u'b&c=d', u'b+c', u"x'y\"z", u'<x>', u'%2F',
-           u'a?', u'?', u'%', u'b%3Fc', u'日本', u'b,c', u'b@c:d', u'~b!', u'b*c(d)']
+           u'a?', u'?', u'%', u'b%3Fc', u'日本', u'b,c', u'b@c:d', u'~b!', u'b*c(d)',
+           # segments that are blank, start or end with a blank, or look like path syntax once decoded
+           u' ', u'  ', u' b', u'b ', u'\t', u'.', u'..', u'%2e%2e', u'\u00a0']
 QUERY = {'none': '', 'empty': '', 'q1': 'x=1', 'q2': 'x=%3F&y=a+b', 'q3': 'q=caf%C3%A9&r=%2F&s=a%26b',
          # raw (not percent-encoded) UTF-8 bytes, as a server hands them over in QUERY_STRING (latin-1 decoded)
          'q4': u'q=caf\xe9 \u2603'.encode('utf8').decode('latin1').replace(' ', '+')}
